@@ -426,6 +426,7 @@ type Clause struct {
 	File string
 	Line int
 	Name string // optional label
+	Callee string // atcall: callee name
 }
 
 type Contract struct {
@@ -451,6 +452,7 @@ type Contract struct {
 	Modifies []string // whole components havoc'd (raw names) for trusted contracts
 	Implements string // key of the interface-method contract this function refines
 	Reveal     []string // opaque definitions unfolded while verifying this function
+	Callsback  bool     // the callee may invoke closures that escaped from the caller
 	ImplTags   []string
 }
 
@@ -767,6 +769,24 @@ func (cs *ContractSet) loadContractFile(path string, pkgPath string, trusted boo
 			}
 			cs.Ghosts[g.Name] = g
 			lastClause, lastDef, pendingSrc = nil, nil, nil
+		case "atcall":
+			// atcall <callee-name> <ordinal> <expr> : assertion in the caller's scope just before the
+			// n-th call (source order) of a function or method with that name
+			if cur == nil || len(fields) < 4 {
+				cs.Errors = append(cs.Errors, where+": malformed atcall clause")
+				continue
+			}
+			n := 0
+			fmt.Sscanf(fields[2], "%d", &n)
+			src := strings.TrimSpace(strings.SplitN(line, fields[2], 2)[1])
+			cl := &Clause{Kind: "atcall", Tags: tags, Src: src, Loop: n, File: path, Line: ln + 1, Callee: fields[1], Name: fmt.Sprintf("atcall:%s#%d", fields[1], n)}
+			cur.Clauses = append(cur.Clauses, cl)
+			lastClause, lastDef = cl, nil
+			pendingSrc = &cl.Src
+		case "callsback":
+			if cur != nil {
+				cur.Callsback = true
+			}
 		case "requires", "ensures", "invariant", "decreases", "assert", "loop":
 			if cur == nil {
 				cs.Errors = append(cs.Errors, where+": clause outside a function contract")
